@@ -25,8 +25,8 @@ func IPAddressToString(ipAddr ngapType.TransportLayerAddress) (ipv4Addr, ipv6Add
 	case 160: // ipv4 + ipv6, and ipv4 is contained in the first 32 bits
 		netIPv4 := net.IPv4(ip.Bytes[0], ip.Bytes[1], ip.Bytes[2], ip.Bytes[3])
 		netIPv6 := net.IP{}
-		for i := range ip.Bytes {
-			netIPv6 = append(netIPv6, ip.Bytes[i+4])
+		for i := 4; i < len(ip.Bytes); i++ {
+			netIPv6 = append(netIPv6, ip.Bytes[i])
 		}
 		ipv4Addr = netIPv4.String()
 		ipv6Addr = netIPv6.String()
